@@ -45,14 +45,18 @@ package sync
 //@ extern func sync/atomic.(*Pointer).Store
 //@ extern func sync/atomic.(*Pointer).CompareAndSwap
 
+// The chain object handed to sync.New is a constructed *blockchain.Blockchain: the well-formedness
+// preconditions of its methods (non-nil back-end and cache) are assumed here (assumepre).
 // ---- ghost record of what the chain and the source answered ---------------------------------------
 //@ ghost var storeErr error
 //@ extern func github.com/NethermindEth/juno/blockchain.(*Blockchain).Store
 //@   logged as Store
+//@   assumepre
 //@   sets storeErr = result
 //@ ghost var revertErr error
 //@ extern func github.com/NethermindEth/juno/blockchain.(*Blockchain).RevertHead
 //@   logged as RevertHead
+//@   assumepre
 //@   sets revertErr = result
 //@ ghost var headsHeader *core.Header
 //@ ghost var headsHeaderErr error
